@@ -50,6 +50,11 @@ namespace
     {
         static HV::AffineTimeMap &inst(int) { static HV::AffineTimeMap m(0.5, 0.25); return m; }
     };
+    template <>
+    struct UserTM<HV::RecipTimeMap>
+    {
+        static HV::RecipTimeMap &inst(int) { static HV::RecipTimeMap m(0.125, 1.0); return m; }
+    };
     template <class SM>
     struct UserSM
     {
@@ -318,6 +323,8 @@ namespace
             }
             o.integer(shared);
             o.nl();
+            // hook H1: is the layout cache dirty right now (every setter must leave it clean: C12 / F1)
+            o.key("dirty"); o.integer(opt->verifLayoutDirty() ? 1 : 0); o.nl();
 #else
             (void)srcB;
             o.key("ptrs"); o.str("nohook"); o.nl();
@@ -330,10 +337,12 @@ namespace
         if (tk == 0 && sk == 0) return new OptImpl<QuadInvTimeMap, IdentitySpatialMap<D>, 0>();
         if (tk == 1 && sk == 0) return new OptImpl<IdentityTimeMap, IdentitySpatialMap<D>, 10>();
         if (tk == 2 && sk == 0) return new OptImpl<HV::AffineTimeMap, IdentitySpatialMap<D>, 20>();
+        if (tk == 3 && sk == 0) return new OptImpl<HV::RecipTimeMap, IdentitySpatialMap<D>, 30>();
 #if H_DIM >= 2
         if (tk == 0 && sk == 1) return new OptImpl<QuadInvTimeMap, HV::ParaboloidMap<D>, 1>();
         if (tk == 1 && sk == 1) return new OptImpl<IdentityTimeMap, HV::ParaboloidMap<D>, 11>();
         if (tk == 2 && sk == 1) return new OptImpl<HV::AffineTimeMap, HV::ParaboloidMap<D>, 21>();
+        if (tk == 3 && sk == 1) return new OptImpl<HV::RecipTimeMap, HV::ParaboloidMap<D>, 31>();
 #endif
         return nullptr;
     }
